@@ -17,7 +17,7 @@ DEFAULT = dict(
     p_group_result=0.25, p_flatten=0.4, p_as=0.12, p_named=0.25,
     p_opt=0.25, p_group_param=0.25, p_soft=0.35, p_obj=0.5, p_nest=0.25,
     p_dup=0.06, p_cycle=0.1, p_unknown_dep=0.08, p_foreign_dep=0.12,
-    n_types=8, early_scopes=0.3, p_multi_dec=0.25, p_group_dec=0.3, p_dec_self=0.85, p_one_obj=0.0, p_soft_pattern=0.0, p_dec_chain=0.0, p_dup_as=0.03, p_dup_dec_key=0.0, p_variadic=0.12, p_ns=0.2, p_wrap_ty=0.08, p_group_chain=0.02, p_unexp=0.1, p_late_scope_cycle=0.02, p_dec_extra=0.03, p_empty_invoke=0.04,
+    n_types=8, early_scopes=0.3, p_multi_dec=0.25, p_group_dec=0.3, p_dec_self=0.85, p_one_obj=0.0, p_soft_pattern=0.0, p_dec_chain=0.0, p_dup_as=0.03, p_dup_dec_key=0.0, p_variadic=0.12, p_ns=0.2, p_wrap_ty=0.08, p_group_chain=0.02, p_unexp=0.1, p_late_scope_cycle=0.02, p_dec_extra=0.03, p_empty_invoke=0.04, p_no_result=0.025,
 )
 
 PROFILES = {
@@ -308,7 +308,20 @@ class Gen:
         f = self.new_fn(params=self.structure_params([self.leaf_param(g)]), results=[], err=True)
         self.ops.append(dict(op="invoke", scope=leaf, fn=f["id"]))
 
+    def gen_no_result(self):
+        """a constructor that provides nothing: no results, only an error, or result objects without
+        any field (in every encoding it must be rejected: nothing to provide)"""
+        s = self.r.randrange(len(self.parents))
+        shape = self.r.choice(["none", "empty-obj", "nested-empty", "two-empty"])
+        results = {"none": [], "empty-obj": [dict(k="obj", fields=[])],
+                   "nested-empty": [dict(k="obj", fields=[dict(k="obj", fields=[])])],
+                   "two-empty": [dict(k="obj", fields=[]), dict(k="obj", fields=[dict(k="obj", fields=[])])]}[shape]
+        f = self.new_fn(params=self.structure_params(self.gen_params(s, self.r.choice([0, 1]))), results=results, err=self.chance(0.7))
+        self.ops.append(dict(op="provide", scope=s, fn=f["id"], export=False))
+
     def gen_provide(self):
+        if self.chance(self.p["p_no_result"]):
+            return self.gen_no_result()
         if self.chance(self.p["p_group_chain"]) and len(self.ops) < 16:
             return self.gen_group_chain()
         if self.chance(self.p["p_late_scope_cycle"]) and len(self.ops) < 16:
